@@ -683,6 +683,8 @@ func c06(r *Run) {
 	c06Names(r)
 	parseFileRel(r, "conc kind=stale ")
 	c06Helpers(r)
+	nilTreeKeepsRegistry(r, "")
+	c06IncludeMixture(r)
 	regFreePairings(r, "conc kind=stale ", "after a registration has returned, a lookup by one of the template's names does not give the version registered under it", 4, r.N(2000, 50000))
 	c06DeepIncludes(r)
 	c06ModelTie(r)
@@ -1250,5 +1252,141 @@ func c06Helpers(r *Run) {
 	r.Dist["helper_concurrent_renders"] = rounds * len(tpls)
 	for _, b := range bads {
 		r.Violate("conc kind=mixed helpers tpl="+b["template"].(string), "a render that runs while other goroutines render templates with OTHER helpers / modifiers gives another result than running alone", b)
+	}
+}
+
+// nilTreeKeepsRegistry: a registration that cannot be carried out — a nil tree, as `ParseFile` returns for a missing
+// file — is API misuse and may panic, but it must neither change the registry nor leave it locked: renders and
+// registrations of other goroutines go on, and the name keeps its version (C06 "atomic", "never a crash"; the panic
+// used to happen while the write lock was held, after the slot had been replaced).
+func nilTreeKeepsRegistry(r *Run, prefix string) {
+	defer dyntpl.VerifResetRegistry()
+	type regFn struct {
+		name string
+		fn   func()
+	}
+	for variant, reg := range []regFn{
+		{"RegisterTplKey(k, nil)", func() { dyntpl.RegisterTplKey("nt-k", nil) }},
+		{"RegisterTplID(7, nil)", func() { dyntpl.RegisterTplID(7, nil) }},
+		{"RegisterTpl(7, k, nil)", func() { dyntpl.RegisterTpl(7, "nt-k", nil) }},
+		{"RegisterTplKey(new, nil)", func() { dyntpl.RegisterTplKey("nt-new", nil) }},
+	} {
+		dyntpl.VerifResetRegistry()
+		good, err, pan := parseSafe([]byte("nt-good[{%= v %}]"), true)
+		good2, err2, pan2 := parseSafe([]byte("nt-other[{%= v %}]"), true)
+		if err != nil || err2 != nil || pan != "" || pan2 != "" {
+			r.Internal("nil-tree: good sources do not parse")
+			return
+		}
+		dyntpl.RegisterTpl(7, "nt-k", good)
+		sig := fmt.Sprintf("%snil-tree-keeps-registry variant=%d %s", prefix, variant, reg.name)
+		r.Count(sig, true)
+		r.Dist[prefix+"nil_tree_keeps_registry"]++
+		regPan := ""
+		func() {
+			defer func() {
+				if x := recover(); x != nil {
+					regPan = fmt.Sprint(x)
+				}
+			}()
+			reg.fn()
+		}()
+		type outcome struct{ byKey, byID, other string }
+		done := make(chan outcome, 1)
+		go func() {
+			var o outcome
+			render := func(f func(ctx *dyntpl.Ctx) ([]byte, error)) string {
+				ctx := dyntpl.NewCtx()
+				ctx.SetString("v", "!")
+				b, e := f(ctx)
+				if e != nil {
+					return "error: " + e.Error()
+				}
+				return string(b)
+			}
+			o.byKey = render(func(ctx *dyntpl.Ctx) ([]byte, error) { return dyntpl.Render("nt-k", ctx) })
+			o.byID = render(func(ctx *dyntpl.Ctx) ([]byte, error) { return dyntpl.RenderByID(7, ctx) })
+			dyntpl.RegisterTplKey("nt-other", good2)
+			o.other = render(func(ctx *dyntpl.Ctx) ([]byte, error) { return dyntpl.Render("nt-other", ctx) })
+			done <- o
+		}()
+		select {
+		case o := <-done:
+			if o.byKey != "nt-good[!]" || o.byID != "nt-good[!]" || o.other != "nt-other[!]" {
+				r.Violate(sig+" changed", "a registration with a nil tree changed what the registered names render",
+					map[string]any{"call": reg.name, "panic_of_the_call": regPan, "by_key": o.byKey, "by_id": o.byID, "other": o.other, "expected": "nt-good[!] / nt-good[!] / nt-other[!]"})
+			}
+		case <-time.After(3 * time.Second):
+			r.Violate(sig+" locked", "after a registration with a nil tree (which panicked) renders and registrations block: the registry lock was never released",
+				map[string]any{"call": reg.name, "panic_of_the_call": regPan})
+			r.Abort() // the registry is unusable now (VerifResetRegistry would block too): write the results and exit
+		}
+	}
+}
+
+type c06HookWriter struct {
+	buf  bytes.Buffer
+	at   string
+	hook func()
+	done bool
+}
+
+func (w *c06HookWriter) Write(p []byte) (int, error) {
+	if !w.done && string(p) == w.at {
+		w.done = true
+		w.hook()
+	}
+	return w.buf.Write(p)
+}
+
+// c06IncludeMixture: one render that includes the same template several times while another goroutine re-registers
+// it. The interleaving is forced: the render's writer starts the registration, and waits for it to return, when it
+// sees a marker chunk. Running alone against either version the render gives all-old or all-new; a render that
+// contains both is a mixture (open finding F-include-mixture: every include tag is a registry lookup of its own).
+// The same probe with the re-registration of the RENDERED template itself must not mix (its tree is held).
+func c06IncludeMixture(r *Run) {
+	defer dyntpl.VerifResetRegistry()
+	for _, tc := range []struct{ name, main, marker string }{
+		{"loop", `{% for i := 0; i < 3; i++ sep | %}{% include mixSub %}{% endfor %}`, "|"},
+		{"sequence", `{% include mixSub %};{% include mixSub %}`, ";"},
+		{"nested", `{% include mixMid %};{% include mixMid %}`, ";"},
+	} {
+		dyntpl.VerifResetRegistry()
+		reg := func(key, src string) bool {
+			t, err, pan := parseSafe([]byte(src), false)
+			if err != nil || pan != "" {
+				return false
+			}
+			dyntpl.RegisterTplKey(key, t)
+			return true
+		}
+		newSub, err, pan := parseSafe([]byte("<NEW>"), false)
+		if !reg("mixSub", "<old>") || !reg("mixMid", "[{% include mixSub %}]") || !reg("mixMain", tc.main) || err != nil || pan != "" {
+			r.Internal("C06 include mixture: sources do not parse")
+			return
+		}
+		render := func(hook func()) string {
+			w := &c06HookWriter{at: tc.marker, hook: hook}
+			ctx := dyntpl.AcquireCtx()
+			defer dyntpl.ReleaseCtx(ctx)
+			if err := dyntpl.Write(w, "mixMain", ctx); err != nil {
+				return "error: " + err.Error()
+			}
+			return w.buf.String()
+		}
+		allOld := render(func() {})
+		got := render(func() {
+			ch := make(chan struct{})
+			go func() { dyntpl.RegisterTplKey("mixSub", newSub); close(ch) }()
+			<-ch
+		})
+		allNew := render(func() {})
+		sig := "conc kind=include-mixture form=" + tc.name
+		r.Count(sig, true)
+		r.Dist["include_mixture_probe"]++
+		if got != allOld && got != allNew {
+			r.Violate(sig, "one render contains two versions of an included template that was re-registered while it ran: neither the render alone against the old version nor against the new one",
+				map[string]any{"main": tc.main, "output": got, "alone_against_old": allOld, "alone_against_new": allNew})
+		}
 	}
 }
